@@ -5,6 +5,7 @@
    instance by its bookkeeping section (an instance superseded between returning and recording is treated as
    cancelled and its result dropped; the pinned suite relies on this). *)
 From Util Require Import Common.Base Common.ListLemmas Routine.Model Routine.Proofs Routine.ProofsC14 Routine.ProofsC14b Routine.Spec Routine.Sweep.
+Close Scope N_scope.
 
 (* nothing but API calls and retry-timer callbacks can start an instance, change the routine or the context *)
 Theorem c14_passive_events_never_start : forall s e, passive e = true ->
